@@ -59,13 +59,8 @@ def main():
         json.dump(meta, open(mpath, "w"), indent=1)
         rows.append((sid, pid, verdict, ", ".join(buckets[:3]), wall, meta.get("summary", "")))
         print("%-8s %-4s %-10s %5.0fs %s" % (sid, pid, verdict, wall, ", ".join(buckets[:2])))
-    if len(sys.argv) == 1 and not os.environ.get("SEEDED_NO_WRITE"):
-        with open(os.path.join(ROOT, "seeded", "RESULTS.md"), "w") as fh:
-            fh.write("# Seeded defects vs. the property's quick check (seed %s)\n\n" % os.environ.get("VERIF_SEED", "1"))
-            fh.write("| seeded defect | property | verdict | first buckets | wall s | what the change does |\n|---|---|---|---|---|---|\n")
-            for r in rows:
-                fh.write("| %s | %s | %s | `%s` | %.0f | %s |\n" % (r[0], r[1], r[2], r[3], r[4], (r[5] or "").replace("|", "/")))
-
+    if not os.environ.get("SEEDED_NO_WRITE"):
+        subprocess.run([sys.executable, os.path.join(ROOT, "tools", "seeded_results.py")], check=True)
 
 if __name__ == "__main__":
     main()
